@@ -199,7 +199,11 @@ class Ctx:
     def tlc_cmd(self, d, mc, workers=None, simulate=None, depth=None, extra=None, deadlock=False,
                 java_opts=None, heap=None):
         workers = workers or min(NCPU, 8)
-        jo = ["-XX:+UseParallelGC", "-Xss64m"]
+        # (TLC unpacks its standard modules into <java.io.tmpdir>/tlc-XXXX and leaves them there: keep that inside the run's
+        # scratch directory, which is removed at the end)
+        jt = os.path.join(d, "jtmp")
+        os.makedirs(jt, exist_ok=True)
+        jo = ["-XX:+UseParallelGC", "-Xss64m", "-Djava.io.tmpdir=" + jt]
         if heap:
             jo.append("-Xmx" + heap)
         if java_opts:
